@@ -89,7 +89,7 @@ class Cloner:
         # Note: value.producer() may not be None when the value is an input of a GraphView
         new_value = _core.Value(
             name=value.name,
-            type=value.type,
+            type=copy.deepcopy(value.type),
             shape=value.shape.copy() if value.shape is not None else None,
             doc_string=value.doc_string,
             const_value=value.const_value,
@@ -211,7 +211,7 @@ class Cloner:
             self._value_map[output] = new_output
             new_output.name = output.name
             new_output.shape = output.shape.copy() if output.shape is not None else None
-            new_output.type = output.type
+            new_output.type = copy.deepcopy(output.type)
             new_output.const_value = output.const_value
             new_output.doc_string = output.doc_string
             if output.metadata_props:
